@@ -108,12 +108,16 @@ def check(ctx):
 
     ctx.paths("R07-b", start, [("wait", f"await {fut}"), ("result", f"{fut}.result()")], step_b, False, at_exit_b,
               instance="start value only after readiness")
+    from .common import resolve_value
     rets = [n for n in own_walk(start.node) if isinstance(n, ast.Return)]
-    vals = sorted(ast.unparse(r.value) if r.value is not None else "None" for r in rets)
+    def rv(e):
+        return ast.unparse(e) if ast.unparse(e) == hd else ast.unparse(resolve_value(start.node, e))
+    vals = sorted({rv(r.value) if r.value is not None else "None" for r in rets})
     ok = vals == sorted([hd, f"{fut}.result()"])
     ctx.ob("R07-b", start, "start() returns the started() value (or the handle carrying it)", ok,
            detail="" if ok else f"return values of start(): {vals}", by=tuple(vals))
-    sv = ctx.sites(start, f"{hd}._start_value = {fut}.result()")
+    sv = [(st_, env) for st_, env in ctx.sites(start, f"{hd}._start_value = $V")
+          if ast.unparse(resolve_value(start.node, env["V"])) == f"{fut}.result()"]
     ctx.ob("R07-b", start, "the handle carries the start value", len(sv) == 1, detail="" if sv else "handle._start_value is not set from future.result()",
            by=("handle._start_value",))
     for r in rets:
